@@ -163,6 +163,16 @@ pub fn run(ctx: &mut Ctx) {
             ctx.next_case();
             check_one(ctx, &Tree::Num(Num::f(f)));
         }
+        // member names and strings around 2^8 and 2^16 bytes, followed by further members
+        if !ctx.miri {
+            for n in [255usize, 256, 65_535, 65_536, 70_000] {
+                ctx.next_case();
+                let k: String = (0..n).map(|i| (b'a' + (i % 26) as u8) as char).collect();
+                let t = Tree::obj_from(vec![("a".into(), Tree::Num(Num::U(1))), (k.clone(), Tree::Str(k.clone())), (format!("{}z", k), Tree::Null), ("zz".into(), Tree::Arr(vec![Tree::Bool(true)]))]);
+                check_one(ctx, &t);
+                check_one(ctx, &Tree::Arr(vec![t, Tree::Str("after".into())]));
+            }
+        }
     }
     let n = ctx.budget(1_000_000, 20_000_000);
     for i in 0..n {
